@@ -37,7 +37,9 @@ ASSUMPTIONS = ["the document's own prose defines no id attributes or '#...' link
 RULE = ("Markdown documents with 1-3 independent recipes (```new-recipe) of 1-3 blocks each; sub recipes with single and "
         "multiple outputs, adversarial output names (spaces, punctuation, quotes, < > &, non-ASCII, names made only of "
         "punctuation, embedded scaled numbers {n}, pairs that sanitise to the same id), references with every amount "
-        "form, across blocks; rendered at scales 1, 2, 1/3, 0.5, 2.5; ids/hrefs extracted with html.parser. "
+        "form, across blocks, names of 50-80 characters sharing their first 40+; rendered at scales 1, 2, 1/3, 0.5, "
+        "2.5 and, for names holding scaled numbers, at numerically equal scales of different type one after the other "
+        "in the same process (1.5 then 3/2, 1/2 then 0.5, ...); ids/hrefs extracted with html.parser. "
         "Non-trivial = at least one link; distinct = distinct (document, scale)")
 
 NAME_PARTS = ["a", "b", "sauce", "x y", "a b", "a-b", "a_b", "a.b", "A B", "é", "中", "<b>", "&", "c<d>", "it's", "#", "%",
@@ -56,8 +58,21 @@ def quote(name_parts: List[Any]) -> str:
     return " ".join(out) if len(out) > 1 else out[0]
 
 
+LONG_STEMS = ["slow roasted tomato and basil sauce for the lasagne layers",
+              "wholemeal.sourdough_starter-fed-twice-daily-for-a-week",
+              "the quick brown fox jumps over the lazy dog again and again"]
+
+
+def long_name(rng: random.Random) -> List[Any]:
+    """50-80 characters; different names share their first 40+ characters and differ in id-alphabet characters."""
+    stem = rng.choice(LONG_STEMS)
+    return [stem + rng.choice([" one", " two", " three", "-a", "-b", ".v2", "_x", " batch 1", " batch 2", " large", " small"])]
+
+
 def rand_name(rng: random.Random) -> List[Any]:
     r = rng.random()
+    if r < 0.12:
+        return long_name(rng)
     if r < 0.55:
         return [rng.choice(NAME_PARTS)]
     if r < 0.8:
@@ -124,7 +139,19 @@ HAND_DOCS = [
     "```recipe\na := x\n```\n\n```recipe\nmix(a, 1/2 of the a)\n```\n\n```new-recipe\na := y\nmix(a)\n```\n",
     "```recipe\na, b := x\nmix(a, b, rest of the a)\n```\n",
     "```recipe\nbatch of {3} := x\nuse(batch of {3})\n```\n",
+    # an output name holding a scaled number, referenced twice (not inlined): for the equal-valued scale pairs
+    "```recipe\ndough for {1} tray := knead(flour, water)\nbase(1/2 of the dough for {1} tray)\ntop(rest of the dough for {1} tray)\n```\n",
+    "```recipe\n{3} small rolls, crumbs := split(bread)\nmix(1/3 of the {3} small rolls, crumbs)\nfry(rest of the {3} small rolls)\n```\n",
+    # long names sharing their first 40+ characters
+    "```recipe\n\"slow roasted tomato and basil sauce for the lasagne layers one\" := x\n"
+    "\"slow roasted tomato and basil sauce for the lasagne layers two\" := y\n"
+    "mix(1/2 of the \"slow roasted tomato and basil sauce for the lasagne layers one\", "
+    "1/2 of the \"slow roasted tomato and basil sauce for the lasagne layers two\")\n"
+    "fry(rest of the \"slow roasted tomato and basil sauce for the lasagne layers one\", "
+    "rest of the \"slow roasted tomato and basil sauce for the lasagne layers two\")\n```\n",
 ]
+# numerically equal scales of different type, rendered one after the other in the same process
+SCALE_PAIRS: List[Tuple[Any, Any]] = [(1.5, Fraction(3, 2)), (Fraction(1, 2), 0.5), (2.0, 2), (3, 3.0), (0.25, Fraction(1, 4))]
 
 
 # ---------------------------------------------------------------- observation
@@ -220,6 +247,7 @@ def oracle(scaled: List[List[Any]], html_ids, hrefs, tokens) -> Tuple[Optional[s
         elif len(found) > 1:
             others = [names_at.get(p, "?") for p in found if p != pos]
             info["duplicates"].append({"id": h[1:], "name": name, "others": others,
+                                       "same_sanitised": all(sanitised(o) == sanitised(name) for o in others),
                                        "same_recipe": all(recipe_of.get(p[0]) == recipe_of.get(pos[0]) for p in found),
                                        "distinct_outputs": len(set(found)) == len(found)})
     if info["other"]:
@@ -231,6 +259,11 @@ def oracle(scaled: List[List[Any]], html_ids, hrefs, tokens) -> Tuple[Optional[s
     return None, info
 
 
+def sanitised(name: str) -> str:
+    """The documented id of an output name (what F8 is about: this function is not injective)."""
+    return re.sub(r"[^a-zA-Z0-9._-]", "-", name).strip("-")
+
+
 def ids_case(inp: Dict[str, Any]) -> Optional[Case]:
     from recipe_grid.markdown import compile_markdown
     doc = inp["doc"]
@@ -239,6 +272,10 @@ def ids_case(inp: Dict[str, Any]) -> Optional[Case]:
         m = compile_markdown(doc)
     except Exception:
         return None          # not a valid document: outside this property
+    if inp.get("before") is not None:
+        # the same document rendered earlier in this process at another scale (state between renders must not matter)
+        m.render(coqio.num_unjson(inp["before"]))
+        compile_markdown(doc).render(coqio.num_unjson(inp["before"]))
     html = m.render(scale)
     ids, hrefs, tokens = extract(html)
     scaled = [[r.scale(scale) for r in rs] for rs in m.recipes]
@@ -251,7 +288,12 @@ def ids_case(inp: Dict[str, Any]) -> Optional[Case]:
         tags.append("ids:multi-output")
     if info["duplicates"]:
         tags.append("ids:collision")
-    return Case(input={"suite": "ids", "doc": doc, "scale": inp["scale"]}, coq_in=page, coq_out=f"(Ok {out})",
+    if inp.get("before") is not None:
+        tags.append("ids:after-equal-scale")
+    if any(len(i) > 50 for i, _ in ids):
+        tags.append("ids:long-name")
+    return Case(input={"suite": "ids", "doc": doc, "scale": inp["scale"], "before": inp.get("before")}, coq_in=page,
+                coq_out=f"(Ok {out})",
                 impl={"ids": ids, "hrefs": hrefs, "oracle": info}, violation=viol, nontrivial=bool(hrefs), tags=tags)
 
 
@@ -272,11 +314,19 @@ def suites(tier: str, seed: int) -> List[Suite]:
                 continue
             seen.add(c.key())
             su.cases.append(c)
+        if d in HAND_DOCS or "{" in d:
+            for s1, s2 in (SCALE_PAIRS if d in HAND_DOCS else [rng.choice(SCALE_PAIRS)]):
+                for first, second in ((s1, s2), (s2, s1)):
+                    c = ids_case({"doc": d, "scale": coqio.num_json(second), "before": coqio.num_json(first)})
+                    if c is None or c.key() in seen:
+                        continue
+                    seen.add(c.key())
+                    su.cases.append(c)
     return [su]
 
 
 def replay(inp: Any) -> Case:
-    c = ids_case({"doc": inp["doc"], "scale": inp["scale"]})
+    c = ids_case({"doc": inp["doc"], "scale": inp["scale"], "before": inp.get("before")})
     if c is None:
         raise ValueError("document does not compile")
     return c
@@ -292,4 +342,7 @@ def known_match(finding: Any, case: Case) -> bool:
     info = (case.impl or {}).get("oracle") or {}
     if info.get("other") or not info.get("duplicates"):
         return False
-    return all(d["others"] and d.get("same_recipe") and d.get("distinct_outputs") for d in info["duplicates"])
+    # ... and only when the DOCUMENTED sanitisation of the colliding names (every character outside [A-Za-z0-9._-]
+    # becomes '-', then strip('-')) is the same string: any other way of getting equal ids is not F8
+    return all(d["others"] and d.get("same_recipe") and d.get("distinct_outputs") and d.get("same_sanitised")
+               for d in info["duplicates"])
